@@ -28,6 +28,9 @@ pub const IDS: &[&str] = &["a", "b", "ab", "a0", "B", "Z", "z", "é", "~", "aa",
 pub const RANKS: &[u64] = &[0, 1, 1, 2, 2, 2, 3, 65535];
 pub const STATUS: &[u64] = &[301, 302, 404, 410, 200];
 pub const RESPONSE_CODES: &[u64] = &[0, 200, 301, 302, 404, 410, 500];
+/// target hashes shared between filters so that `override` / `add` with the same target collide in the unit trace
+pub const TARGET_HASHES: &[&str] = &["th-a", "th-a", "th-b", "status_code", "text", "configuration::log"];
+pub const DIFF_PROBE: &[&str] = &["hu00", "ru0", "lu0", "cu0", "bu00", "nope", "ru0", "hu10", "ru1"];
 pub const CODE_LISTS: &[&[u64]] = &[&[], &[404], &[301, 404], &[200], &[0], &[404, 404], &[410, 500], &[200, 301, 302, 404, 410, 500]];
 
 fn opt<T: Into<Value>>(rng: &mut Prng, num: usize, den: usize, v: T) -> Value {
@@ -36,6 +39,11 @@ fn opt<T: Into<Value>>(rng: &mut Prng, num: usize, den: usize, v: T) -> Value {
     } else {
         Value::Null
     }
+}
+
+fn pick_hash(rng: &mut Prng) -> Value {
+    let th = *rng.pick(TARGET_HASHES);
+    opt(rng, 2, 3, th)
 }
 
 fn opt_bool(rng: &mut Prng, p_some: (usize, usize), p_true: (usize, usize)) -> Value {
@@ -95,8 +103,8 @@ pub fn gen_rule(rng: &mut Prng, id: &str, ri: usize, ov_set: bool, allow_html: b
                         "action": *rng.pick(&["add", "add", "add", "override", "remove", "replace", "default", "nope"]),
                         "header": *rng.pick(&["X-A", "x-a", "X-B", "Location", "X-C"]),
                         "value": format!("r{ri}h{hi}"),
-                        "id": opt(rng, 1, 2, format!("hu{ri}{hi}")),
-                        "target_hash": opt(rng, 1, 3, format!("ht{ri}{hi}")),
+                        "id": opt(rng, 2, 3, format!("hu{ri}{hi}")),
+                        "target_hash": pick_hash(rng),
                     })
                 })
                 .collect();
@@ -142,7 +150,9 @@ pub fn gen_rule(rng: &mut Prng, id: &str, ri: usize, ov_set: bool, allow_html: b
     r.insert("stop".into(), opt_bool(rng, (1, 5), (1, 2)));
     r.insert("ru".into(), opt(rng, 1, 2, format!("ru{ri}")));
     r.insert("lu".into(), opt(rng, 1, 2, format!("lu{ri}")));
-    r.insert("th".into(), opt(rng, 1, 3, format!("th{ri}")));
+    let th = *rng.pick(TARGET_HASHES);
+    r.insert("th".into(), opt(rng, 1, 2, th));
+    r.insert("cu".into(), opt(rng, 1, 2, format!("cu{ri}")));
     Value::Object(r)
 }
 
@@ -332,6 +342,7 @@ pub fn rule_json(r: &Value) -> Result<Value, String> {
         "stop": get(r, "stop"),
         "redirect_unit_id": get(r, "ru"),
         "configuration_log_unit_id": get(r, "lu"),
+        "configuration_reset_unit_id": get(r, "cu"),
         "target_hash": get(r, "th"),
     }))
 }
@@ -424,6 +435,16 @@ pub fn routes_and_router(case: &Value, rules: Vec<Rule>) -> Result<(Vec<Arc<Rout
         }
         _ => Err("via".into()),
     }
+}
+
+/// Canonical content of a `UnitTrace`: the two ordered sets as they are, what comes out of hash maps sorted.
+fn canon_trace(t: &UnitTrace) -> Value {
+    let v = serde_json::to_value(t).unwrap();
+    let mut seen: Vec<String> = v["unit_ids_seen"].as_array().unwrap().iter().map(|x| x.as_str().unwrap().to_string()).collect();
+    seen.sort();
+    let mut values: Vec<(String, String)> = v["value_computed_by_units"].as_object().unwrap().iter().map(|(k, x)| (k.clone(), x.as_str().unwrap().to_string())).collect();
+    values.sort();
+    json!({"rules": v["rule_ids_applied"], "applied": v["unit_ids_applied"], "seen": seen, "values": values.iter().map(|(k, x)| json!([k, x])).collect::<Vec<Value>>()})
 }
 
 fn u16_of(v: &Value) -> Option<u16> {
@@ -589,12 +610,24 @@ fn run(case: &Value) -> Obs {
         ids.dedup();
         ids.len() < k && !flags.iter().any(|f| f == "dup-ids")
     };
-    let action = Action::from_routes_rule(routes, &request, None);
+    let action = Action::from_routes_rule(routes.clone(), &request, None);
     let action_json = serde_json::to_value(&action).unwrap();
+    // the same with a real UnitTrace (package W3e): results must not change, the trace content is observed
+    let mut base_trace = UnitTrace::default();
+    let action_t = Action::from_routes_rule(routes, &request, Some(&mut base_trace));
+    let mut interference: Option<String> = None;
+    if serde_json::to_value(&action_t).unwrap() != action_json {
+        interference = Some("from_routes_rule computes another action when given a unit trace".to_string());
+    }
     let mut resp_headers = headers.clone();
     if let Some(ct) = &ct {
         resp_headers.push(Header { name: "Content-Type".to_string(), value: ct.clone() });
     }
+    let ids_probe: Vec<String> = {
+        let mut v: Vec<String> = case.get("rules").and_then(|r| r.as_array()).map(|a| a.iter().filter_map(|r| s(r, "id")).collect()).unwrap_or_default();
+        v.push("nope".to_string());
+        v
+    };
     let mut per_code = Vec::new();
     for &c in &codes {
         let mut a = action.clone();
@@ -625,16 +658,57 @@ fn run(case: &Value) -> Obs {
             let ids: Vec<String> = a.get_applied_rule_ids().iter().cloned().collect();
             out.push(json!({"op": name, "r": r, "ids": ids}));
         }
-        per_code.push(json!({"c": c, "ops": out}));
+        // traced run of the same observer sequence
+        let mut at = action_t.clone();
+        let mut tr = base_trace.clone();
+        let mut out_t = Vec::new();
+        for op in &ops {
+            let (name, r): (&str, Value) = match op {
+                Op::Status => ("status", json!(at.get_status_code(c, Some(&mut tr)))),
+                Op::Headers => {
+                    let hs = at.filter_headers(headers.clone(), c, true, Some(&mut tr));
+                    ("headers", Value::Array(hs.iter().map(|h| json!([h.name, h.value])).collect()))
+                }
+                Op::Body => match at.create_filter_body(c, &resp_headers) {
+                    None => ("body", Value::Null),
+                    Some(mut fb) => {
+                        let kinds = fb.verif_chain_kinds();
+                        let mut o = fb.filter(body.clone().into_bytes(), Some(&mut tr));
+                        o.extend(fb.end(Some(&mut tr)));
+                        ("body", json!({"kinds": kinds, "out": String::from_utf8_lossy(&o).to_string()}))
+                    }
+                },
+                Op::Log => ("log", json!(at.should_log_request(allow_log, c, Some(&mut tr)))),
+                Op::Final(fb) => {
+                    let (s1, s2) = at.get_final_status_code_with_fallback(c, *fb, &mut tr);
+                    ("final", json!([s1, s2]))
+                }
+            };
+            let ids: Vec<String> = at.get_applied_rule_ids().iter().cloned().collect();
+            out_t.push(json!({"op": name, "r": r, "ids": ids}));
+        }
+        // `final` always runs with a trace (its signature requires one): compare the others
+        if out_t != out && interference.is_none() {
+            interference = Some(format!("code {c}: observers return {} with a unit trace, {} without", Value::Array(out_t.clone()), Value::Array(out.clone())));
+        }
+        let pre = canon_trace(&tr);
+        tr.squash_with_target_unit_traces();
+        let post = canon_trace(&tr);
+        let diff: Vec<String> = tr.diff(DIFF_PROBE.iter().map(|s| s.to_string()).collect()).into_iter().collect();
+        let contains: Vec<bool> = ids_probe.iter().map(|id| tr.rule_ids_contains(id)).collect();
+        per_code.push(json!({"c": c, "ops": out, "ut": {"pre": pre, "post": post, "diff": diff, "contains": contains}}));
     }
     let traced = !trace_obs.is_null();
-    let mut o = Obs::new(json!({"action": action_json, "codes": per_code, "trace": trace_obs})).trivial(n_rules < 2);
+    let mut o = Obs::new(json!({"action": action_json, "codes": per_code, "trace": trace_obs, "ut0": canon_trace(&base_trace)})).trivial(n_rules < 2);
     if traced {
         o.tags.push("action-trace".to_string());
     }
     o.tags.push(format!("rules:{n_rules}"));
     o.tags.push(format!("via:{}", s(case, "via").unwrap_or_else(|| "direct".to_string())));
     o.tags.extend(flags);
+    if let Some(why) = interference {
+        return o.fail(why, "trace-interference");
+    }
     if dup_match {
         return o.fail("the router returned a matched rule more than once: its effects are applied twice", "dup-match");
     }
